@@ -40,7 +40,12 @@ def run_canary(cn, repo, cache):
         r = driver.run_unit(cn['unit'], 'quick', repo=os.path.join(root, 'repo'), cache=os.path.join(root, 'cache'), probes=False)
         failed = [o['id'] for o in r['obligations'] if o['status'] == 'failed']
         killed = any(any(f == e or f.startswith(e) for e in cn['expect']) for f in failed)
-        res = dict(id=cn['id'], unit=cn['unit'], killed=killed, failed=failed, status=r['status'], reason=r.get('reason'),
+        unreached = [o['id'] for o in r['obligations'] if o['status'] == 'unreached' and any(o['id'] == e or o['id'].startswith(e) for e in cn['expect'])]
+        status, reason = r['status'], r.get('reason')
+        if not killed and unreached and status == 'ok':
+            # the edit pushed the target function out of the verifier's reach: says nothing about the contract's strength
+            status, reason = 'inconclusive', 'target obligation(s) unreached after the edit: %s' % ', '.join(unreached[:3])
+        res = dict(id=cn['id'], unit=cn['unit'], killed=killed, failed=failed, status=status, reason=reason,
                    what=cn.get('what', ''))
     except driver.Undecided as e:
         res = dict(id=cn['id'], unit=cn['unit'], killed=False, failed=[], status='undecided', reason=str(e), what=cn.get('what', ''))
